@@ -134,6 +134,10 @@ class PythonCryptoEndpoint(CryptoEndpoint, EndpointListener):
         """
         Process incoming raw data, assumed to be a cell, originating from a given address.
         """
+        if len(data) < 29:
+            self.logger.debug("Dropping truncated cell from %s", source_address)
+            return
+
         cell = CellPayload.from_bin(data)
         circuit_id = cell.circuit_id
 
@@ -148,6 +152,10 @@ class PythonCryptoEndpoint(CryptoEndpoint, EndpointListener):
             return
 
         if not self.incoming_crypto(cell):
+            return
+
+        if not cell.message:
+            self.logger.debug("Dropping empty cell from circuit %d", circuit_id)
             return
 
         self.logger.debug("Got cell(%s) from circuit %d (sender %s)", cell.message[0], circuit_id, source_address)
